@@ -23,7 +23,7 @@ def mk(name):
     ca, cb, cg = (math.cos(math.radians(x)) for x in (al, be, ga))
     vol = a * b * c * math.sqrt(1 - ca * ca - cb * cb - cg * cg + 2 * ca * cb * cg)
     atoms = []
-    for i in range(1 + h % 3):
+    for i in range(0 if name.startswith("O") else 1 + h % 3):      # names in O: no atoms (atom pointer is a live, empty buffer)
         atoms.append((6 + (h + i) % 20, 0.5 if i % 2 else 1.0, 0.25 * i, 0.1 * (h % 7), 0.5))
     return dict(name=name, cell=(a, b, c, al, be, ga), volume=vol, atoms=atoms)
 
@@ -418,10 +418,13 @@ def run(ctx, B):
     s, t, closed3, md, oc = explore(ctx, exe, [["Q0"], ["Q1"], ["Q2"]], ["aA", "aB", "aSi", "r0", "r1", "r10", "r11", "r12", "gA", "gzf000", "gSi", "X", "M"], 3 if quick else 12,
                                     san_exe=san, label="builtin-capacity", nworkers=8)
     res["builtin_capacity"] = dict(states=s, transitions=t, closed=closed3, max_depth=md, outcomes=len(oc)); tot_s += s; tot_t += t
+    # 4. a crystal without atoms whose atom pointer is a live buffer: copies must not share it (to closure)
+    s, t, closed4, md, oc = explore(ctx, exe, [[], ["P1"]], ["I1", "AO", "AA", "GO", "GA", "K", "M", "X", "F", "aO", "gO"], 30, san_exe=san, label="zero-atom")
+    res["zero_atom"] = dict(states=s, transitions=t, closed=closed4, max_depth=md, outcomes=len(oc)); tot_s += s; tot_t += t
     ctx.cov.update(states=max(tot_s, 1), transitions=max(tot_t, 1), traces_validated_against_impl=tot_t)
     ctx.add(evaluations=tot_t, nontrivial=tot_s)
     ctx.notes["explorations"] = res
-    ctx.cov["exhaustive"] = bool(closed)          # the core alphabet ran to closure; the wider alphabets are depth bounded (see explorations)
+    ctx.cov["exhaustive"] = bool(closed and closed4)          # the core alphabet ran to closure; the wider alphabets are depth bounded (see explorations)
     ctx.sample(dict(history=["P2", "AA", "R1", "GA", "M", "F"], meaning="array at capacity 2, add A (growth), load file with F and G, copy A, scribble over the copy, free the array"))
     ctx.sample(dict(history=["Q1", "aA", "aB"], meaning="built-in collection filled to 511, add A (fills it), add B (must be refused, collection intact)"))
     ctx.cov["rule"] = ("explicit-state BFS over operation histories of the real crystal collection code: state = observable content through the public list/lookup API "
